@@ -9,14 +9,23 @@ Import ListNotations.
 Local Open Scope R_scope.
 
 Theorem C02_implicit_components :
-  forall (F : KTypes.ureal R -> res (Kernel.operand RNum)) fixed s lo hi eps s' r,
-    implicit_gen RNum F fixed s lo hi eps = Ok (s', r) ->
+  forall (F : KTypes.ureal R -> res (Kernel.operand RNum)) s lo hi eps s' r,
+    implicit_real RNum F s lo hi eps = Ok (s', r) ->
     exists xk d oy,
-      nr_get_root RNum F fixed s lo hi eps = Ok (s', xk, d) /\
+      nr_get_root RNum F s lo hi eps = Ok (s', xk, d) /\
       F (mk_constant RNum xk None) = Ok (@OpdU RNum oy) /\ d <> 0 /\
       ux r = xk /\ scaled_by d oy r.
-Proof. exact implicit_gen_inv. Qed.
+Proof. exact implicit_real_inv. Qed.
 Print Assumptions C02_implicit_components.
+
+(* dF/dx is taken AT the returned point, for every successful call, the bracket ends included (available since the
+   repair of finding C20-implicit-end: before it the function value was returned for a root at a bracket end) *)
+Theorem C02_implicit_derivative_at_solution :
+  forall (F : KTypes.ureal R -> res (Kernel.operand RNum)) s lo hi eps s' r,
+    implicit_real RNum F s lo hi eps = Ok (s', r) ->
+    exists d oy, probed F (ux r) d /\ F (mk_constant RNum (ux r) None) = Ok (@OpdU RNum oy) /\ d <> 0 /\ scaled_by d oy r.
+Proof. exact implicit_real_probed. Qed.
+Print Assumptions C02_implicit_derivative_at_solution.
 
 Theorem C02_implicit_function_theorem :
   forall (U : key -> R) (I : key -> bool) (e0 : env) (Fy : env -> R) (oy r : KTypes.ureal R) (d : R),
